@@ -13,6 +13,7 @@ From Verif Require Import Base.GoSem Css.Token Css.Tok Css.Parse
   Css.Color Css.ColorSpec Css.ColorProofs.
 From Coq Require Import QArith.
 From Verif Require Css.Syntax3Spec.
+From Verif Require Css.TextComposeProofs.
 From Coq Require Import List NArith ZArith.
 Import ListNotations.
 
@@ -416,3 +417,36 @@ Proof. exact ex_rgb_number_rejected. Qed.
 (* hypotheses are inhabited *)
 Example C06_scalars_inhabited : scalars [97; 233; 8364; 128512]%N.
 Proof. repeat constructor; vm_compute; intuition discriminate. Qed.
+
+(* ------------------------------------------------------------------ steps towards C06_text_compositional_statement
+   (Css/TextComposeProofs.v).  The specification's tokens carry the erased position p0,
+   so these equations are exact. *)
+(* a leading ";" is always a token of its own, whatever follows (every text s2) *)
+Theorem C06_text_semicolon_head : forall s2 : list N,
+  Css.Syntax3Spec.spec_tokenize false (59%N :: s2) =
+    TLiteral Css.Syntax3Spec.p0 [59%N] :: Css.Syntax3Spec.spec_tokenize false s2.
+Proof. exact Css.TextComposeProofs.spec_tokenize_semicolon_head. Qed.
+Print Assumptions C06_text_semicolon_head.
+
+(* the s1 = [] instance of C06_text_compositional_statement *)
+Theorem C06_text_compositional_nil : forall s2 : list N,
+  Css.Syntax3Spec.spec_tokenize false ([] ++ [59%N]) =
+    Css.Syntax3Spec.spec_tokenize false [] ++ [TLiteral Css.Syntax3Spec.p0 [59%N]] ->
+  Css.Syntax3Spec.spec_tokenize false ([] ++ 59%N :: s2) =
+    Css.Syntax3Spec.spec_tokenize false [] ++ TLiteral Css.Syntax3Spec.p0 [59%N] :: Css.Syntax3Spec.spec_tokenize false s2.
+Proof. exact Css.TextComposeProofs.text_compositional_nil. Qed.
+Print Assumptions C06_text_compositional_nil.
+
+(* C06_text_compositional_statement restricted to the class: s1 (of any length) consists
+   only of the code points "," (44) ":" (58) ";" (59); s2 arbitrary.  On this class the
+   hypothesis of the statement always holds, so it is not needed. *)
+Theorem C06_text_compositional_partial : forall s1 s2 : list N,
+  forallb Css.TextComposeProofs.simple_delim s1 = true ->
+  Css.Syntax3Spec.spec_tokenize false (s1 ++ 59%N :: s2) =
+    Css.Syntax3Spec.spec_tokenize false s1 ++ TLiteral Css.Syntax3Spec.p0 [59%N] :: Css.Syntax3Spec.spec_tokenize false s2.
+Proof. exact Css.TextComposeProofs.text_compositional_delims. Qed.
+Print Assumptions C06_text_compositional_partial.
+
+Example C06_text_compositional_partial_inhabited :
+  forallb Css.TextComposeProofs.simple_delim [59; 58; 44; 44; 59; 58]%N = true.
+Proof. reflexivity. Qed.
